@@ -4,7 +4,8 @@
 // exception from a user handler propagates out of run()).
 //
 //   scn <id> <param>          base scenario (catalogue below)
-//   iv <k> <kind> <obj>       at hook boundary k apply intervention kind to object obj
+//   iv <k> <kind> <obj> [<wrap>]  at hook boundary k (wrap=1: k modulo the scenario's boundary count) apply intervention kind to object obj
+//   iv2 <d> <kind> <obj>      a second intervention (kinds 0-4) d+1 boundaries after the first one, on the same or another object
 // kind 0 cancel  1 close  2 destroy  3 supersede (new operation of the same kind)
 //      4 move-then-destroy-source (only when no operation is outstanding on obj)
 //      5 throw from the next user handler
@@ -63,6 +64,8 @@ struct Run
 	static constexpr long long CTL_TOTAL = 6000;
 	// boundaries
 	int iv_k = -1, iv_kind = -1, iv_obj = -1; bool iv_done = false; bool iv_skipped = false;
+	long long iv_T = -1; int iv_sup = OP_NONE; // time and superseding operation of the first intervention
+	int iv2_k = -1, iv2_kind = -1, iv2_obj = -1; bool iv2_done = false, iv2_applied = false;
 	int boundary = 0; std::vector<std::size_t> boundary_events; std::vector<long long> boundary_time;
 	std::vector<std::vector<int>> outstanding_at; // per boundary: sentinel ids outstanding (baseline only)
 	bool baseline = true;
@@ -523,9 +526,12 @@ struct Outcome
 	int boundaries = 0; std::vector<std::vector<int>> outstanding_at; std::vector<long long> boundary_time; std::vector<long long> run_time; // per sentinel (baseline)
 	std::vector<std::size_t> boundary_events; int ntargets = 0;
 	std::vector<int> inflight_at; // packets in flight per boundary (baseline)
+	bool second_applied = false;
 };
 
-Outcome run_scn(int id, int param, int k, int kind, int objsel, bool c12, Outcome const* base)
+struct Second { int d = -1, kind = 0, obj = 0; };
+
+Outcome run_scn(int id, int param, int k, int kind, int objsel, bool c12, Outcome const* base, Second second = Second())
 {
 	Outcome out;
 	std::unique_ptr<Run> rp(new Run());
@@ -540,6 +546,7 @@ Outcome run_scn(int id, int param, int k, int kind, int objsel, bool c12, Outcom
 		{
 			if (targets.empty()) { out.skipped = true; }
 			else { R.iv_k = k; R.iv_kind = kind; R.iv_obj = targets[std::size_t(objsel) % targets.size()]; }
+			if (!targets.empty() && second.d >= 0) { R.iv2_k = k + 1 + second.d; R.iv2_kind = second.kind; R.iv2_obj = targets[std::size_t(second.obj) % targets.size()]; }
 		}
 		Budget b(2000000);
 		Run* r = &R; World* wp = &w;
@@ -555,7 +562,13 @@ Outcome run_scn(int id, int param, int k, int kind, int objsel, bool c12, Outcom
 			{
 				r->iv_done = true;
 				if (r->iv_kind == 5) r->throw_next = true;
-				else r->intervene(r->iv_kind, r->iv_obj);
+				else { r->intervene(r->iv_kind, r->iv_obj); r->iv_T = r->objs[std::size_t(r->iv_obj)].intervened_at; r->iv_sup = r->objs[std::size_t(r->iv_obj)].superseding_op; }
+			}
+			else if (r->iv_done && !r->iv_skipped && r->iv2_k >= 0 && kk == r->iv2_k && !r->iv2_done)
+			{
+				r->iv2_done = true;
+				r->intervene(r->iv2_kind, r->iv2_obj);
+				r->iv2_applied = !r->iv_skipped; r->iv_skipped = false; // an inapplicable second intervention leaves a single-intervention run
 			}
 		};
 		bool threw = false, threw_other = false;
@@ -586,7 +599,7 @@ Outcome run_scn(int id, int param, int k, int kind, int objsel, bool c12, Outcom
 		if (!threw && !out.inconclusive && R.iv_done && !R.iv_skipped && R.iv_kind != 5 && base)
 		{
 			Obj& x = R.objs[std::size_t(R.iv_obj)];
-			long long const T = x.intervened_at;
+			long long const T = R.iv_T;
 			std::vector<int> const& was = std::size_t(k) < base->outstanding_at.size() ? base->outstanding_at[std::size_t(k)] : std::vector<int>();
 			bool any = false;
 			for (int sid : was)
@@ -600,7 +613,7 @@ Outcome run_scn(int id, int param, int k, int kind, int objsel, bool c12, Outcom
 				if (R.iv_kind == 3)
 				{
 					// a new operation supersedes outstanding operations of the same kind (reads/waits vs writes vs accepts)
-					int const lo = x.superseding_op;
+					int const lo = R.iv_sup;
 					auto cls = [](int op) { return (op == OP_READ || op == OP_WAITREAD) ? 1 : op == OP_WRITE ? 2 : (op >= OP_ACCEPT0 && op <= OP_ACCEPT2) ? 3 : (op == OP_URECV || op == OP_URECVFROM || op == OP_UWAITREAD) ? 4 : op == OP_TWAIT ? 5 : 0; };
 					applies = cls(s.op) != 0 && cls(s.op) == cls(lo);
 				}
@@ -621,10 +634,10 @@ Outcome run_scn(int id, int param, int k, int kind, int objsel, bool c12, Outcom
 		// ---- scenario 22: a cancelled, destroyed or re-armed timer that nobody waits on is silent -- the simulation must
 		// not wake up for its old expiry (a stale queue entry; after destruction a dangling one)
 		if (id == 22 && !threw && !out.inconclusive && R.iv_done && !R.iv_skipped && base && R.iv_obj == targets[0] && (R.iv_kind == 0 || R.iv_kind == 2 || R.iv_kind == 3)
-			&& R.objs[std::size_t(R.iv_obj)].intervened_at < (FAR_MS - 100) * 1000000LL)
+			&& R.iv_T < (FAR_MS - 100) * 1000000LL && !R.iv2_applied)
 		{
 			out.nontrivial = true;
-			if (main_end >= FAR_MS * 1000000LL) R.fail(fmt("timer 'armed-idle' (expiry %lld ms, no wait pending) was %s at t=%lld ns, yet the simulation still ran on to its old expiry (clock %lld ns at quiescence)", FAR_MS, R.iv_kind == 0 ? "cancelled" : R.iv_kind == 2 ? "destroyed" : "re-armed to t+7ms", R.objs[std::size_t(R.iv_obj)].intervened_at, main_end));
+			if (main_end >= FAR_MS * 1000000LL) R.fail(fmt("timer 'armed-idle' (expiry %lld ms, no wait pending) was %s at t=%lld ns, yet the simulation still ran on to its old expiry (clock %lld ns at quiescence)", FAR_MS, R.iv_kind == 0 ? "cancelled" : R.iv_kind == 2 ? "destroyed" : "re-armed to t+7ms", R.iv_T, main_end));
 		}
 		if (id == 22 && R.iv_done && !R.iv_skipped && base && R.iv_kind != 5) out.nontrivial = true; // an armed timer is referred to by the timer queue
 
@@ -656,6 +669,7 @@ Outcome run_scn(int id, int param, int k, int kind, int objsel, bool c12, Outcom
 			for (auto const& s : R.sents)
 				if (s->count != 1) { R.fail(fmt("handler '%s' was invoked %d times by final quiescence%s", s->what.c_str(), s->count, s->functor_destroyed && s->count == 0 ? " (silently discarded)" : "")); break; }
 		out.err = R.err;
+		out.second_applied = R.iv2_applied;
 	}
 	return out;
 }
@@ -667,7 +681,10 @@ Verdict run_case(Case const& c, Ctx& ctx)
 	bool const c12 = ctx.opt.prop == "C12";
 	int id = 0, param = 0, k = -1, kind = 0, obj = 0;
 	if (auto r = c.first("scn")) { id = int(((r->at(0) % NSCN) + NSCN) % NSCN); param = int(std::max(0LL, std::min(5LL, r->at(1)))); }
-	if (auto r = c.first("iv")) { k = int(r->at(0)); kind = int(r->at(1)); obj = int(r->at(2)); }
+	bool wrap = false; Second second;
+	if (auto r = c.first("iv")) { k = int(r->at(0)); kind = int(r->at(1)); obj = int(r->at(2)); wrap = r->at(3, 0) != 0; }
+	if (auto r = c.first("iv2")) { if (r->at(0) >= 0 && r->at(0) < 100000 && r->at(1) >= 0 && r->at(1) <= 4 && r->at(2) >= 0) { second.d = int(r->at(0)); second.kind = int(r->at(1)); second.obj = int(r->at(2) % 8); } }
+	if (!c12) second = Second();
 	Verdict v;
 	if (k < 0 || kind < 0 || kind > 5) { ++ctx.guards_skipped; return v; }
 	if (!c12 && (kind == 4 || kind == 5)) { ++ctx.guards_skipped; return v; }
@@ -683,16 +700,18 @@ Verdict run_case(Case const& c, Ctx& ctx)
 	}
 	Outcome const& base = it->second;
 	if (base.inconclusive) { v.inconclusive = true; return v; }
+	if (wrap && base.boundaries > 0) k %= base.boundaries;
 	if (k >= base.boundaries) { ++ctx.guards_skipped; return v; }
-	Outcome o = run_scn(id, param, k, kind, obj, c12, &base);
+	Outcome o = run_scn(id, param, k, kind, obj, c12, &base, second);
 	++ctx.ops_executed;
 	if (o.inconclusive) { v.inconclusive = true; return v; }
 	if (o.skipped) { ++ctx.guards_skipped; ctx.label("intervention_not_applicable"); return v; }
 	static char const* kn[] = {"cancel", "close", "destroy", "supersede", "move", "throw"};
 	ctx.label(std::string("iv_") + kn[kind]);
 	ctx.label(fmt("scn_%d", id));
+	if (o.second_applied) ctx.label("two_interventions");
 	v.nontrivial = o.nontrivial;
-	if (!o.err.empty()) { Verdict f = Verdict::fail(c12 ? "safety" : "handler_contract", fmt("scenario %d, boundary %d, %s on object %d: ", id, k, kn[kind], obj) + o.err); f.nontrivial = v.nontrivial; return f; }
+	if (!o.err.empty()) { Verdict f = Verdict::fail(c12 ? "safety" : "handler_contract", fmt("scenario %d, boundary %d, %s on object %d%s: ", id, k, kn[kind], obj, o.second_applied ? fmt(", then %s on object %d %d boundaries later", kn[second.kind], second.obj, second.d + 1).c_str() : "") + o.err); f.nontrivial = v.nontrivial; return f; }
 	return v;
 }
 
@@ -728,6 +747,20 @@ void campaign(Ctx& ctx)
 						ctx.eval(c);
 					}
 		}
+	}
+	if (c12 && !ctx.failed)
+	{
+		// two interventions in one run: a random sample (first one anywhere, second one soon or late after it)
+		auto g = rc::gen::map(rc::gen::tuple(kit::range(0, NSCN - 1), kit::range(0, 5), kit::range(0, 100000), kit::range(0, 4), kit::range(0, 2),
+			rc::gen::oneOf(kit::range(0, 6), kit::range(0, 60), kit::range(0, 2000)), kit::range(0, 4), kit::range(0, 2)),
+			[](std::tuple<long long, long long, long long, long long, long long, long long, long long, long long> t) {
+				Case c;
+				Rec r; r.name = "scn"; r.a = {std::get<0>(t), std::get<1>(t)}; c.recs.push_back(r);
+				Rec iv; iv.name = "iv"; iv.a = {std::get<2>(t), std::get<3>(t), std::get<4>(t), 1}; c.recs.push_back(iv);
+				Rec i2; i2.name = "iv2"; i2.a = {std::get<5>(t), std::get<6>(t), std::get<7>(t)}; c.recs.push_back(i2);
+				return c;
+			});
+		ctx.rc_campaign("two interventions", g, thorough ? 60000 : 700, 60, 7);
 	}
 	if (!ctx.failed)
 	{
